@@ -6,8 +6,70 @@ from pathlib import Path
 
 from vlib.common import REPO
 from harness.simdevice import CliDevice
-from harness.simtransport import AsyncSimTransport, FaultPlan, SimStall, SimTransport, make_conn
+import threading
+from harness.simtransport import AsyncSimTransport, DRIVERS, FaultPlan, SimStall, SimTransport, named
+from harness.simtransport import make_conn as _sim_make_conn
 from harness.secretdevice import BadSecretDevice, DialogueDevice, LoginDevice
+from harness import c12real as RR
+
+OPS_TIMEOUT = 0.25      # seconds: operation timeout of the runs where the REAL timeout decorator has to fire
+MECHS = ("signal", "threadname", "nonmain", "asyncio")
+
+
+_BLOCKSIM = []
+
+
+def _blocksim():
+    """SimTransport whose blocking read polls with time.sleep and whose close() takes no lock.  The shared class waits on a
+    threading.Event; the signal flavour of the timeout decorator runs transport.close() (-> Event.set()) INSIDE the signal
+    handler, i.e. possibly while the interrupted main thread holds the Event's non-reentrant lock in Event.wait(): the
+    process then deadlocks (seen once in a seeded run; rig race, not scrapli's)."""
+    if _BLOCKSIM:
+        return _BLOCKSIM[0]
+    import time as _time
+    from scrapli.decorators import timeout_wrapper
+    from scrapli.exceptions import ScrapliConnectionError
+
+    class BlockSim(SimTransport):
+        def close(self):
+            self.trace.append(("close",))
+            self.opened = False
+
+        @timeout_wrapper
+        def read(self):
+            self._pre_read()
+            if not self.buf:
+                if self.on_empty == "stall":
+                    self.trace.append(("stall",))
+                    raise SimStall()
+                t0 = _time.monotonic()
+                while not self.buf:
+                    _time.sleep(0.003)
+                    if not self.opened:
+                        raise ScrapliConnectionError("transport closed while blocked in read")
+                    if _time.monotonic() - t0 > RR.HARD_CAP:
+                        raise RR.RigStall()
+            return self._take()
+    _BLOCKSIM.append(BlockSim)
+    return BlockSim
+
+
+def make_conn(platform, device, stack="sync", **kw):
+    """simtransport.make_conn + the timeout mechanism of the current scenario (spec["mech"]): the device may go silent
+    (fault action "silent"), reads block, timeout_ops is small and the REAL decorator ends the operation:
+      signal     - Sim transport, main thread (SIGALRM / setitimer)
+      threadname - the same transport under the class name SystemTransport (thread pool, selected by class name)
+      nonmain    - Sim transport, the whole scenario runs in a worker thread (thread pool, selected by thread)
+      asyncio    - asyncio stack (wait_for)"""
+    spec = _CUR.get("spec") or {}
+    mech = spec.get("mech")
+    if mech:
+        kw["on_empty"] = "block"
+        kw["timeout_ops"] = spec.get("timeout_ops", OPS_TIMEOUT)
+        kw.pop("transport_cls", None)
+    if stack == "sync" and kw.get("on_empty") == "block" and not kw.get("transport_cls"):
+        kw["transport_cls"] = named(_blocksim(), "SystemTransport") if mech == "threadname" else _blocksim()
+    return _sim_make_conn(platform, device, stack, **kw)
 
 SECRET_ROLES = ("PW", "PP", "SEC", "HID")          # auth_password, passphrase, auth_secondary, hidden interact input
 PROBE_ROLES = ("USR", "NHI", "CMD", "UID")         # not secret: used to validate the extraction on flows that DO happen
@@ -115,7 +177,7 @@ class TaintTracker:
 
     def __init__(self):
         self.seen = {}      # ("v", rel, qual, name) | ("a", attr) -> (role, scenario key)
-        self.busy = False
+        self._tl = threading.local()
         self.can = None
         self.key = ""
         self._rel = {}
@@ -124,10 +186,12 @@ class TaintTracker:
     def start(self, can, key):
         self.can = [(r, c.core, c.core.encode()) for r, c in can.items() if r in SECRET_ROLES]
         self.key = key
+        threading.setprofile(self._prof)     # worker threads of the thread-pool timeout started from now on
         sys.setprofile(self._prof)
 
     def stop(self):
         sys.setprofile(None)
+        threading.setprofile(None)
 
     def _role(self, v, depth=0):
         import dataclasses
@@ -151,7 +215,7 @@ class TaintTracker:
         return None
 
     def _prof(self, frame, event, arg):
-        if self.busy or event not in ("call", "return"):
+        if event not in ("call", "return") or getattr(self._tl, "busy", False):
             return
         code = frame.f_code
         fn = code.co_filename
@@ -161,7 +225,7 @@ class TaintTracker:
             rel = self._rel[fn] = s_[0] if s_ else ""
         if not rel:
             return
-        self.busy = True
+        self._tl.busy = True
         try:
             self.frames += 1
             qual = code.co_qualname
@@ -188,7 +252,7 @@ class TaintTracker:
                         if ra:
                             self.seen.setdefault(("a", a), (ra, self.key))
         finally:
-            self.busy = False
+            self._tl.busy = False
 
 
 TRACKER = TaintTracker()
@@ -273,12 +337,44 @@ class Result:
         self.nreads = self.nwrites = 0
         self.advisory = []
         self.conn = None
+        self.line = None         # harness.c12real.Line of the scenarios over a REAL transport plugin
         self.user_args = {}      # mutable objects the "user" handed to scrapli: deep-scanned afterwards
 
 
 def _conn_exhibits(res, conn, when):
     res.exhibits.append(Exhibit("repr", repr(conn), site=("repr", "__repr__"), what=f"repr(conn) {when}"))
     res.exhibits.append(Exhibit("str", str(conn), site=("repr", "__str__"), what=f"str(conn) {when}"))
+
+
+def _object_exhibits(res, conn, when):
+    """repr/str of the objects behind the driver: transport, channel, the args dataclasses.  The property speaks about
+    the DRIVER's repr; `PluginTransportArgs` is a plain dataclass that carries the password by design, so these are
+    advisory exhibits (scanned and counted), except transport / channel objects themselves, which have no business
+    showing a secret: gating."""
+    objs = [("transport", getattr(conn, "transport", None), True), ("channel", getattr(conn, "channel", None), True),
+            ("_base_transport_args", getattr(conn, "_base_transport_args", None), False),
+            ("_base_channel_args", getattr(conn, "_base_channel_args", None), True),
+            ("plugin_transport_args", getattr(getattr(conn, "transport", None), "plugin_transport_args", None), False)]
+    for name, o, gating in objs:
+        if o is None:
+            continue
+        try:
+            text = repr(o) + "\n" + str(o)
+        except Exception as e:
+            text = f"<repr failed {e!r}>"
+        res.exhibits.append(Exhibit("objrepr", text, gating=gating, what=f"repr({name}) {when}"))
+
+
+def force_debug_everywhere():
+    """every logger under `scrapli` (also ones created meanwhile by name) hands its records on at DEBUG"""
+    root = logging.getLogger("scrapli")
+    root.setLevel(logging.DEBUG)
+    root.disabled = False
+    for name, lg in list(logging.root.manager.loggerDict.items()):
+        if name.startswith("scrapli.") and isinstance(lg, logging.Logger):
+            lg.setLevel(logging.NOTSET)
+            lg.propagate = True
+            lg.disabled = False
 
 
 def run_scenario(key, spec, seed, cap, meta=None):
@@ -288,7 +384,9 @@ def run_scenario(key, spec, seed, cap, meta=None):
     res = Result(key, can)
     R = Runner(spec["stack"])
     cap.records.clear()
+    force_debug_everywhere()
     _CUR["res"] = res
+    _CUR["spec"] = spec
     nmid = [0]
 
     def hook():
@@ -298,13 +396,18 @@ def run_scenario(key, spec, seed, cap, meta=None):
     R.hook = hook
     try:
         try:
-            TRACKER.start(can, key)
-            try:
-                SCENARIOS[spec["kind"]](spec, can, res, R)
-            finally:
-                TRACKER.stop()
+            if spec.get("mech") == "nonmain":
+                _in_worker_thread(spec, can, res, R, key)
+            else:
+                TRACKER.start(can, key)
+                try:
+                    SCENARIOS[spec["kind"]](spec, can, res, R)
+                finally:
+                    TRACKER.stop()
         except SimStall:
             res.outcome = "stall"
+        except RR.RigStall:
+            res.outcome = "rigstall"
         except ScrapliException as e:
             res.outcome = type(e).__name__
             res.exhibits += exception_exhibits(e)
@@ -315,14 +418,18 @@ def run_scenario(key, spec, seed, cap, meta=None):
             res.exhibits.append(Exhibit("userarg", repr(obj), gating=False, what=f"user supplied {name} afterwards"))
         if res.conn is not None:
             _conn_exhibits(res, res.conn, "after")
+            _object_exhibits(res, res.conn, "after")
             cl = getattr(res.conn.channel, "channel_log", None) or res.conn._base_channel_args.channel_log
             if isinstance(cl, io.BytesIO) and not cl.closed:
                 res.exhibits.append(Exhibit("chanlog", cl.getvalue().decode("utf-8", "replace"), what="channel log"))
             t = res.conn.transport
             res.nreads, res.nwrites = getattr(t, "nreads", 0), getattr(t, "nwrites", 0)
             # which tokens did the device send back?  (reads of the transport)
-            if hasattr(t, "reads"):
-                back = b"".join(t.reads()).decode("utf-8", "replace")
+            src = res.line if res.line is not None else t
+            if res.line is not None:
+                res.nreads, res.nwrites = res.line.nreads, res.line.nwrites
+            if hasattr(src, "reads"):
+                back = b"".join(src.reads()).decode("utf-8", "replace")
                 for r, c in can.items():
                     if c.core in back:
                         res.echoed.add(r)
@@ -333,8 +440,30 @@ def run_scenario(key, spec, seed, cap, meta=None):
     return res
 
 
+def _in_worker_thread(spec, can, res, R, key):
+    """the whole scenario in a thread that is not the main thread (the timeout decorator must then use its thread pool)"""
+    box = []
+
+    def body():
+        TRACKER.start(can, key)
+        try:
+            SCENARIOS[spec["kind"]](spec, can, res, R)
+        except BaseException as e:      # handed to the caller's thread
+            box.append(e)
+        finally:
+            sys.setprofile(None)
+    th = threading.Thread(target=body, name="c12-nonmain", daemon=True)
+    th.start()
+    th.join(60)
+    threading.setprofile(None)
+    if th.is_alive():
+        raise RR.RigStall()
+    if box:
+        raise box[0]
+
+
 # ---------------------------------------------------------------- scenario bodies
-_CUR = {"res": None}
+_CUR = {"res": None, "spec": None}
 
 
 def user_transport_options():
@@ -359,7 +488,7 @@ def _faults(spec):
         return None
     from scrapli.exceptions import ScrapliTimeout
     where, k, action = f
-    act = ScrapliTimeout("timed out reading from transport") if action == "timeout" else "eof"
+    act = ScrapliTimeout("timed out reading from transport") if action == "timeout" else action
     return [FaultPlan(at_read=k if where == "read" else None, at_write=k if where == "write" else None, action=act)]
 
 
@@ -744,7 +873,88 @@ def sc_real_timeout(spec, can, res, R):
     R.do(conn.open)
     R.do(conn.send_interactive, [("enable " + can["NHI"].core, "Password:", False), (can["HID"].full, "never#", True)])
 
+# ---- the REAL transport plugins over a scripted line (harness/c12real.py): faults at the library boundary
+REAL_STACK = {"telnet": "sync", "system": "sync", "paramiko": "sync", "asynctelnet": "async", "asyncssh": "async"}
 
-SCENARIOS = {"telnet": sc_telnet, "ssh": sc_ssh, "escalate": sc_escalate, "interactive": sc_interactive,
+
+def sc_real(spec, can, res, R):
+    """spec: transport (plugin name), work = login | interactive | escalate, platform, fault=(where, k, action).
+    telnet / asynctelnet: in-channel login with user name + password; system: in-channel ssh login with key passphrase +
+    password; paramiko / asyncssh: the library authenticates (fake accepts), the channel carries the later secrets.
+    timeout_ops is small and real: telnet / system -> thread pool, paramiko -> signal, asyncio transports -> wait_for."""
+    import scrapli.driver as D
+    import scrapli.driver.core as C
+    tr, work, plat = spec["transport"], spec["work"], spec.get("platform", "generic")
+    stack = REAL_STACK[tr]
+    if work == "escalate":
+        inner = CliDevice(plat, hostname="r1", user="admin", login_mode="exec" if plat != "cisco_iosxr" else None,
+                          enable_password=can["SEC"].full)
+    elif work == "interactive":
+        inner = DialogueDevice("r1>", ["Password: ", "r1#", "r1#", "r1#"], [False, True, False], echo_all=False)
+    else:
+        inner = CliDevice("generic", hostname="r1")
+    if tr in ("telnet", "asynctelnet"):
+        dev = LoginDevice(inner, mode="telnet", username=can["USR"].full, password=can["PW"].full, max_tries=9)
+    elif tr == "system":
+        dev = LoginDevice(inner, mode="ssh", username=can["USR"].full, host="sim", max_tries=2, password=can["PW"].full,
+                          passphrase=can["PP"].full)
+    else:
+        dev = inner
+    line = RR.Line(dev, spec.get("fault"))
+    res.line = line
+    seen, spawned, undo = {}, {}, []
+
+    def patch(mod, name, value):
+        undo.append((mod, name, getattr(mod, name)))
+        setattr(mod, name, value)
+    if tr == "telnet":
+        import scrapli.transport.plugins.telnet.transport as M
+        patch(M, "Socket", lambda **kw: RR.FakeSocket(line))
+    elif tr == "asynctelnet":
+        import scrapli.transport.plugins.asynctelnet.transport as M
+        patch(M, "asyncio", RR.AsyncioWithLine(line))
+    elif tr == "system":
+        import scrapli.transport.plugins.system.transport as M
+        patch(M, "PtyProcess", RR.fake_ptyprocess(line, spawned))
+    elif tr == "paramiko":
+        import scrapli.transport.plugins.paramiko.transport as M
+        patch(M, "_ParamikoTransport", RR.fake_paramiko_session(line, seen))
+        patch(M, "Socket", RR.PlainSocket)
+    else:
+        import scrapli.transport.plugins.asyncssh.transport as M
+        patch(M, "connect", RR.fake_asyncssh_connect(line, seen))
+    name = DRIVERS[plat][0 if stack == "sync" else 1]
+    cls = getattr(C, name, None) or getattr(D, name)
+    try:
+        conn = cls(host="sim", transport=tr, auth_strict_key=False, timeout_ops=spec.get("timeout_ops", OPS_TIMEOUT),
+                   timeout_transport=0, **_common_kw(can, **({"auth_secondary": can["SEC"].full} if plat != "generic" else {})))
+        res.conn = conn
+        _conn_exhibits(res, conn, "before")
+        with fast_login_loops():
+            R.do(conn.open)
+            if work == "interactive":
+                events = [("enable " + can["NHI"].core, "Password:", False), (can["HID"].full, "r1#", True)]
+                resp = R.do(conn.send_interactive, events)
+                res.exhibits.append(Exhibit("repr", repr(resp) + "\n" + str(resp) + "\n" + repr(resp.channel_input), gating=False,
+                                            what="repr(response)"))
+            elif work == "escalate":
+                if plat == "juniper_junos":
+                    R.do(conn.acquire_priv, "root_shell")
+                    R.do(conn.acquire_priv, "exec")
+                elif plat == "cisco_iosxr":
+                    R.do(conn.acquire_priv, "configuration")
+            resp = R.do(conn.send_command, "show " + can["CMD"].core)
+            res.exhibits.append(Exhibit("repr", repr(resp) + "\n" + str(resp), gating=False, what="repr(response)"))
+            R.do(conn.close)
+    finally:
+        for mod, name_, old in reversed(undo):
+            setattr(mod, name_, old)
+        if spawned:
+            res.exhibits.append(Exhibit("userarg", repr(spawned), gating=True, what="argv of the ssh child process"))
+        if seen:
+            res.advisory.append(("library saw password", seen.get("password") == can["PW"].full))
+
+
+SCENARIOS = {"real": sc_real, "telnet": sc_telnet, "ssh": sc_ssh, "escalate": sc_escalate, "interactive": sc_interactive,
              "net_interactive": sc_net_interactive, "factory": sc_factory, "paramiko": sc_paramiko, "asyncssh": sc_asyncssh,
              "real_timeout": sc_real_timeout, "system": sc_system, "interactive_early": sc_interactive_early}
